@@ -8,6 +8,8 @@ mod ext3;
 mod ext4;
 mod ext_c13;
 mod ext_c18;
+mod ext_c09;
+mod gen_c09;
 mod enc;
 mod gen;
 mod interp;
